@@ -17,6 +17,7 @@ import (
 	"runtime"
 	"slices"
 	"strings"
+	"unsafe"
 
 	"golang.org/x/tools/go/ssa"
 )
@@ -51,11 +52,23 @@ type deferred struct {
 	tail  *deferred
 }
 
+func vkey(v ssa.Value) uintptr {
+	return (*[2]uintptr)(unsafe.Pointer(&v))[1]
+}
+
+var constCache = map[uintptr]value{}
+
 type fnInfo struct {
-	idx  map[ssa.Value]int
+	idx  map[uintptr]int
 	n    int
 	name string
 	pkg  string
+	// call dispatch, computed once per function
+	model     modelFn
+	stub      bool
+	isInit    bool
+	interpOK  bool
+	pkgPath   string
 }
 
 var fnInfos = map[*ssa.Function]*fnInfo{}
@@ -64,14 +77,29 @@ func infoOf(fn *ssa.Function) *fnInfo {
 	if fi, ok := fnInfos[fn]; ok {
 		return fi
 	}
-	fi := &fnInfo{idx: map[ssa.Value]int{}, name: fn.String()}
+	fi := &fnInfo{idx: map[uintptr]int{}, name: fn.String()}
+	if fn.Parent() == nil {
+		fi.model = models[fi.name]
+		if fi.model == nil && fn.Synthetic != "" && fn.Origin() != nil {
+			fi.model = models[fn.Origin().String()]
+		}
+	}
+	fi.pkgPath = pkgPathOf(fn)
+	fi.stub = stubPkgs[fi.pkgPath]
+	fi.isInit = fn.Name() == "init" && fn.Pkg != nil && fn.Parent() == nil && fn.Signature.Recv() == nil && fn.Synthetic != ""
+	fi.interpOK = true
+	if fn.Synthetic == "" || fn.Pkg != nil {
+		if fi.pkgPath != "" && !I.interpPkgs[fi.pkgPath] {
+			fi.interpOK = false
+		}
+	}
 	if fn.Pkg != nil {
 		fi.pkg = fn.Pkg.Pkg.Path()
 	} else if o := fn.Origin(); o != nil && o.Pkg != nil {
 		fi.pkg = o.Pkg.Pkg.Path()
 	}
 	add := func(v ssa.Value) {
-		fi.idx[v] = fi.n
+		fi.idx[vkey(v)] = fi.n
 		fi.n++
 	}
 	for _, p := range fn.Params {
@@ -86,7 +114,7 @@ func infoOf(fn *ssa.Function) *fnInfo {
 	for _, b := range fn.Blocks {
 		for _, ins := range b.Instrs {
 			if v, ok := ins.(ssa.Value); ok {
-				if _, dup := fi.idx[v]; !dup {
+				if _, dup := fi.idx[vkey(v)]; !dup {
 					add(v)
 				}
 			}
@@ -117,9 +145,9 @@ var unwinding bool
 
 // noInitPkgs are interpreted but their package initialisers are skipped (they only
 // set up reflection-based globals that no modelled path reads).
-var noInitPkgs = map[string]bool{"errors": true, "internal/errors": true}
+var noInitPkgs = map[string]bool{"errors": true, "internal/errors": true, "time": true, "github.com/0chain/common/core/logging": true, "go.uber.org/atomic": true}
 
-func (fr *frame) set(k ssa.Value, v value) { fr.env[fr.info.idx[k]] = v }
+func (fr *frame) set(k ssa.Value, v value) { fr.env[fr.info.idx[vkey(k)]] = v }
 
 func (fr *frame) get(key ssa.Value) value {
 	switch key := key.(type) {
@@ -128,7 +156,16 @@ func (fr *frame) get(key ssa.Value) value {
 	case *ssa.Function, *ssa.Builtin:
 		return key
 	case *ssa.Const:
-		return constValue(key)
+		k := vkey(key)
+		if v, ok := constCache[k]; ok {
+			return v
+		}
+		v := constValue(key)
+		switch v.(type) {
+		case bool, int, int8, int16, int32, int64, uint, uint8, uint16, uint32, uint64, uintptr, float32, float64, string:
+			constCache[k] = v
+		}
+		return v
 	case *ssa.Global:
 		if r, ok := fr.i.globals[key]; ok {
 			return r
@@ -137,7 +174,7 @@ func (fr *frame) get(key ssa.Value) value {
 		fr.i.globals[key] = &cell
 		return &cell
 	}
-	if ix, ok := fr.info.idx[key]; ok {
+	if ix, ok := fr.info.idx[vkey(key)]; ok {
 		return fr.env[ix]
 	}
 	panic(fmt.Sprintf("get: no value for %T: %v", key, key.Name()))
@@ -599,40 +636,33 @@ func callSSA(i *interpreter, caller *frame, callpos token.Pos, fn *ssa.Function,
 	if caller != nil {
 		fr.g = caller.g
 	}
-	name := fn.String()
+	fi := infoOf(fn)
+	name := fi.name
 	if i.tracing {
 		fmt.Fprintf(os.Stderr, "Entering %s\n", name)
 	}
-	if fn.Parent() == nil {
-		if ext := models[name]; ext != nil {
-			return ext(fr, args)
-		}
-		if fn.Synthetic != "" && fn.Origin() != nil {
-			if ext := models[fn.Origin().String()]; ext != nil {
-				return ext(fr, args)
-			}
-		}
+	if fi.model != nil {
+		return fi.model(fr, args)
 	}
-	if fn.Name() == "init" && fn.Pkg != nil && fn.Parent() == nil && fn.Signature.Recv() == nil && fn.Synthetic != "" {
+	if fi.isInit {
 		if !i.interpPkgs[fn.Pkg.Pkg.Path()] || i.inited[fn.Pkg] || noInitPkgs[fn.Pkg.Pkg.Path()] {
 			return nil
 		}
 		i.inited[fn.Pkg] = true
 	}
+	if fi.stub {
+		return zeroResults(fn)
+	}
 	if fn.Blocks == nil {
 		// wrapper for an interface method of an unbuilt package etc.
 		panic(pathEnd{"unsupported", "no code for function: " + name + " called from " + callChain(caller)})
 	}
-	if fn.Synthetic == "" || fn.Pkg != nil {
-		pp := pkgPathOf(fn)
-		if pp != "" && !i.interpPkgs[pp] {
-			panic(pathEnd{"unsupported", "call into non-interpreted package: " + name + " called from " + callChain(caller)})
-		}
+	if !fi.interpOK {
+		panic(pathEnd{"unsupported", "call into non-interpreted package: " + name + " called from " + callChain(caller)})
 	}
 	if fn.TypeParams().Len() > 0 && len(fn.TypeArgs()) == 0 {
 		panic("interp requires ssa.BuilderMode to include InstantiateGenerics to execute generics")
 	}
-	fi := infoOf(fn)
 	fr.info = fi
 	if G != nil && fi.pkg != "" {
 		G.funcs[fi.name]++
